@@ -12,7 +12,10 @@
 (*          normally; done = completed runs of the entry's function; own / module / integration  *)
 (*          = number of records carrying an exception report per logger class; foreign = error   *)
 (*          records outside the integration + unhandled-exception callbacks of the event loop,   *)
-(*   by_same, by_other : runs of a bystander function in the same / another file afterwards,     *)
+(*   by_same, by_other : runs of the bystander functions (event trigger, service, state trigger)  *)
+(*          the same file defines above the entry / of functions in two other files afterwards;  *)
+(*          left = number of registrations of those (service, bus listener, state subscription)  *)
+(*          still present - after a load-time fault there must be none and none may run,         *)
 (*   main_loaded : the script's global context exists afterwards, nmodfail : number of modules   *)
 (*          whose load is part of the faulty chain ]                                            *)
 (* A parts element = [rel, exc, frames : << [file, name, line] >>]; pyscript's frame of a        *)
@@ -43,7 +46,7 @@ ContainWhy(cs, flags) ==
   ELSE IF \E i \in Benign(cs) : cs.steps[i].done # 1 THEN "trigger-stopped-serving"
   ELSE IF cs.by_other # 1 THEN (IF IsLoad(cs) THEN "load-error-disturbed-other-files" ELSE "others-disturbed")
   ELSE IF ~IsLoad(cs) /\ cs.by_same # 1 THEN "others-disturbed"
-  ELSE IF IsLoad(cs) /\ (cs.main_loaded \/ cs.by_same # 0) THEN "faulty-file-not-unloaded"
+  ELSE IF IsLoad(cs) /\ (cs.main_loaded \/ cs.by_same # 0 \/ cs.left # 0) THEN "faulty-file-not-unloaded"
   ELSE IF ~IsLoad(cs) /\ ~cs.main_loaded THEN "runtime-fault-unloaded-the-file"
   ELSE ""
 
